@@ -265,6 +265,12 @@ class SymContext(object):
     def item(self, obj, idx):
         return self.ip.getitem(obj, idx)
 
+    def setitem(self, obj, idx, v):
+        self.ip.setitem(obj, idx, v)
+
+    def delitem(self, obj, idx):
+        self.ip.delitem(obj, idx)
+
     def items(self, v):
         return self.ip.iterate(v)
 
@@ -484,6 +490,12 @@ class ConcContext(object):
 
     def item(self, obj, idx):
         return obj[idx]
+
+    def setitem(self, obj, idx, v):
+        obj[idx] = v
+
+    def delitem(self, obj, idx):
+        del obj[idx]
 
     def items(self, v):
         return list(v)
